@@ -9,6 +9,10 @@ import (
 
 type xof struct {
 	impl blake2s.XOF
+	// orig is the engine created by New. Reseed replaces impl by an engine
+	// keyed with sampled output, so the first Reseed parks the original
+	// engine here for Reset to return to the seeded initial state.
+	orig blake2s.XOF
 	seed []byte
 	// key is here to not make excess garbage during repeated calls
 	// to XORKeyStream.
@@ -70,10 +74,17 @@ func (x *xof) Reseed() {
 	if !ok {
 		panic("y could not be casted to XOF")
 	}
+	if x.orig == nil {
+		x.orig = x.impl
+	}
 	x.impl = yXof.impl
 }
 
 func (x *xof) Reset() {
+	if x.orig != nil {
+		x.impl = x.orig
+		x.orig = nil
+	}
 	x.impl.Reset()
 	_, _ = x.impl.Write(x.seed)
 }
